@@ -350,19 +350,19 @@ def run_lines(binary, lines, env=None, timeout=300, nproc=1):
             outs = list(ex.map(lambda c: run_lines(binary, c, env, timeout, 1), chunks))
         return [o for c in outs for o in c]
     data = '\n'.join(lines) + '\n'
+    timeout = max(timeout, 60 + len(lines) // 50)   # long batches get proportionally more time (at least 50 lines/s)
     try:
         r = subprocess.run(binary, input=data, stdout=subprocess.PIPE, stderr=subprocess.PIPE, text=True, env=env, timeout=timeout)
         out = r.stdout.split('\n')
-        if out and out[-1] == '':
-            out.pop()
+        # the last element is either '' (output ended with a newline) or a line cut short by a crash: never a result
+        out.pop()
         rc = r.returncode
     except subprocess.TimeoutExpired as e:
         so = e.stdout or ''
         if isinstance(so, bytes):
             so = so.decode('utf-8', 'replace')
         out = so.split('\n')
-        if out and out[-1] == '':
-            out.pop()
+        out.pop()   # '' or a line cut short by the kill: never a result
         rc = -9
     if rc == 0 and len(out) == len(lines):
         return out
